@@ -62,7 +62,7 @@ Section OdSim.
     all: destruct H as [-> H]; destruct h; try congruence; unfold od_dispatch, od_deser; eval_ids; reflexivity.
   Qed.
 
-  Notation AR := (act_rel (ops_od cfg) (ops_doc cfg) R_od cur_done is_root).
+  Notation AR := (act_rel (ops_od cfg) (ops_doc cfg) R_od cur_done is_root (fun (_ : hint) (a b : prim) => a = b)).
 
   Lemma od_ignored phi iskey tok l v c : RT_od phi tok l v c ->
     od_dispatch cfg iskey HIgnored tok l = Ok (APrim PUnit, mklx (tail phi c) (lx_orig l)).
@@ -291,7 +291,7 @@ Section OdSim.
       + cbn [toks_val wbytes map concat]. rewrite app_nil_r. exact Ei.
   Qed.
 
-  Theorem od_ops_sim : ops_sim (ops_od cfg) (ops_doc cfg) R_od RT_od cur_done is_root.
+  Theorem od_ops_sim : ops_sim (c_fops cfg) (ops_od cfg) (ops_doc cfg) R_od RT_od cur_done is_root (fun (_ : hint) (a b : prim) => a = b).
   Proof.
     constructor.
     - intros. apply od_H_disp. assumption.
@@ -299,6 +299,9 @@ Section OdSim.
     - intros. apply od_H_key; assumption.
     - intros. apply od_H_val. assumption.
     - reflexivity.
+    - intros; subst; reflexivity.
+    - intros; subst; reflexivity.
+    - intros; subst; reflexivity.
   Qed.
 
   (* ---------- the on-demand path computes the specified value ---------- *)
@@ -306,7 +309,7 @@ Section OdSim.
     sim eq (walk_root (c_fops cfg) (ops_od cfg) fuel sh (lx_new (enc_doc fs g))) (spec_value cfg fuel sh fs g).
   Proof.
     intros W. unfold spec_value.
-    apply (walk_root_sim (c_fops cfg) (ops_od cfg) (ops_doc cfg) R_od RT_od cur_done is_root od_ops_sim fuel FRoot).
+    apply (walk_root_sim (c_fops cfg) (ops_od cfg) (ops_doc cfg) R_od RT_od cur_done is_root (fun (_ : hint) (a b : prim) => a = b) od_ops_sim fuel FRoot).
     - reflexivity.
     - unfold wf_doc in W. apply andb_prop in W as [W _]. apply andb_prop in W as [_ W].
       split; [cbn [wf_cur]; rewrite W; reflexivity|].
